@@ -155,6 +155,10 @@ def conclude(ctx, result, wall):
         for k in ("exhaustive", "scope", "programs", "disagreements_checked", "builds", "sanitizers", "explanation"):
             if k in result:
                 coverage[k] = result[k]
+        if meta["level"] == "translation_validation":
+            c = result.get("counters", {})
+            coverage["disagreements_checked"] = int(c.get("verdicts_compared", 0) + c.get("trees_compared", 0) + c.get("variant_runs", 0) + c.get("token_streams_compared", 0))
+            coverage["programs"] = int(result.get("programs", 0))
         evidence = {
             "property_id": pid,
             "tier": ctx.tier,
@@ -237,7 +241,7 @@ def attribute_build_errors(ctx, output, bins):
     import re
     hits = []
     cache = {}
-    for m in re.finditer(r"^error(\[E\d+\])?: (.*)\n\s+--> src/bin/(shard_\d+)\.rs:(\d+):", output, re.M):
+    for m in re.finditer(r"^error(\[E\d+\])?: (.*)\n\s+--> src/bin/(s_\w+)\.rs:(\d+):", output, re.M):
         msg, shard, line = m.group(2), m.group(3), int(m.group(4))
         if shard not in cache:
             try:
